@@ -15,3 +15,12 @@ UNITS = [
                  "aas_core_meta.v3); all *_id_set attributes of all reachable objects and all is_subclass_of pairs",
            args={"max_classes": 3}, thorough_args={"max_classes": 4, "with_big_model": True}, timeout_s=1800),
 ]
+
+UNITS.append(Native(
+    "the cache is transparent when the model file is edited between runs", ["C23", "C04"], "native.c23:edited_models",
+    kind="examples",
+    bound="one meta-model with an error that is located in the generator phase (a missing snippet of an "
+          "implementation-specific class); 8 texts in a row (original, blank lines / a comment prepended, final newline "
+          "removed, blank lines appended / inserted, trailing blanks, original again), each run with --cache_model into a "
+          "private cache directory and without: exit status, stdout, stderr (line and column numbers) and output files "
+          "must be equal", args={}, timeout_s=600))
